@@ -2783,6 +2783,132 @@ def k_module_init(E, tier):
     return rec
 
 
+def k_load_css_lock(E, tier):
+    """C02: meta.load-css keeps the loaded file locked while its body is evaluated: MixinDecl::get hands the
+    locked file back inside the Mixin (and does not unlock it itself), and the @include arm of handle_item
+    unlocks exactly that file after the body has been handled — so a cycle of load-css calls meets the lock
+    (a loop error) instead of recursing without bound."""
+    decls = E.load_enum("sass/mixin.rs", "MixinDecl")
+    items = E.load_enum("sass/item.rs", "Item", "sass::item::Item")
+    f = E.find(name_re=r"^mixin::<impl at .*>::get$", contains=["SourceKind::load_css"])
+    rec = Rec("MixinDecl::get (load-css) and handle_item's @include arm", f, E)
+    ctx = E.ctx()
+    decl = sym.Opaque("MixinDecl", "decl", ctx)
+    ctx.assumptions.append("(= %s %s)" % (decl.discriminant().term, bvlit(decls.index("LoadCss"), 64)))
+    thefile = sym.Opaque("SourceFile", "loaded-file", ctx)
+
+    def full(ex, st, x):
+        while isinstance(x, sym.Ref):
+            x = ex.deref(st, x)
+        return x
+
+    def m_find(ex, st, c, a, d):
+        out = []
+        for kind, val in (("err", sym.Agg(d, "Err", {"0": sym.Opaque("Error", "find-error", ctx)}, 1)),
+                          ("none", sym.Agg(d, "Ok", {"0": sym.Agg("Option", "None", {}, 0)}, 0)),
+                          ("some", sym.Agg(d, "Ok", {"0": sym.Agg("Option", "Some", {"0": thefile}, 1)}, 0))):
+            s2 = st.fork()
+            s2.events.append(sym.Event("find", a, kind, len(st.pc)))
+            out.append((s2, val))
+        return out
+
+    def m_ok_or_else(ex, st, c, a, d):
+        x = a[0]
+        if isinstance(x, sym.Agg) and x.variant == "Some":
+            return sym.Agg(d, "Ok", {"0": x.fields["0"]}, 0)
+        if isinstance(x, sym.Agg) and x.variant == "None":
+            return sym.Agg(d, "Err", {"0": sym.Opaque("CallError", "not-found", ctx)}, 1)
+        return None
+
+    def m_unlock(ex, st, c, a, d):
+        e = sym.Event("unlock", a, None, len(st.pc))
+        e.rargs = [full(ex, st, x) for x in a]
+        st.events.append(e)
+        return sym.Unit()
+
+    def m_iter_none(ex, st, c, a, d):
+        return sym.Agg(d, "None", {}, 0)
+
+    models = [(r"::find_file$", m_find), (r"^Option::<SourceFile>::ok_or_else::<", m_ok_or_else), (r"::unlock_loading$", m_unlock),
+              (r"^core::str::<impl str>::starts_with::<&str>$", lambda ex, st, c, a, d: sym.mk_bool("false")),
+              (r"as Iterator>::next$", m_iter_none)] + BASE_MODELS
+    ex = sym.Executor(ctx, models=models, feasibility=E.feasibility(ctx), max_paths=6000)
+    paths = [p for p in ex.run(f, [decl, sym.Opaque("ScopeRef", "scope", ctx), sym.Opaque("&CallArgs", "args", ctx), sym.Opaque("&SourcePos", "pos", ctx),
+                                   sym.Opaque("&mut Context", "fctx", ctx)]) if p.status == "return"]
+    rec.paths = len(paths)
+    okp = [p for p in paths if isinstance(p.ret, sym.Agg) and p.ret.variant == "Ok" and any(e.callee == "find" and e.result == "some" for e in p.events)]
+    if not okp:
+        rec.add("load-css: an Ok path that found a file exists (shape not recognised)", {"verdict": "inconclusive", "per_solver": {}, "time_s": 0})
+    for i, p in enumerate(okp):
+        mix = p.ret.fields["0"]
+        unl = [e for e in p.events if e.callee == "unlock"]
+        carried = isinstance(mix, sym.Agg) and any(isinstance(v, sym.Agg) and v.variant == "Some" and v.fields.get("0") is thefile for v in mix.fields.values())
+        rec.add("load-css path %d: the file found is not unlocked before its body has been evaluated; it is handed to the caller inside the Mixin" % i,
+                {"verdict": "holds" if (not unl and carried) else "violated", "per_solver": {"structural": "events: %d unlock, carried=%s" % (len(unl), carried)}, "time_s": 0})
+    # the @include arm
+    g = E.find(name="handle_item")
+    ctx2 = E.ctx()
+    item = sym.Opaque("sass::item::Item", "item", ctx2)
+    ctx2.assumptions.append("(= %s %s)" % (item.discriminant().term, bvlit(items.index("MixinCall"), 64)))
+    loaded = sym.Opaque("std::option::Option<SourceFile>", "mixin.loaded", ctx2)
+    mixin = sym.Agg("Mixin", None, {"0": sym.Opaque("ScopeRef", "mixin.scope", ctx2), "1": sym.Opaque("Parsed", "mixin.body", ctx2), "2": loaded,
+                                    "scope": None, "body": None, "loaded": loaded})
+    mixin.fields["scope"], mixin.fields["body"] = mixin.fields["0"], mixin.fields["1"]
+
+    def m_get_mixin(ex, st, c, a, d):
+        return sym.Agg(d, "Some", {"0": sym.Opaque("MixinDecl", "decl", ctx2)}, 1)
+
+    def m_get(ex, st, c, a, d):
+        ok, err = st.fork(), st.fork()
+        ok.events.append(sym.Event("get", a, None, len(st.pc)))
+        return [(ok, sym.Agg(d, "Ok", {"0": mixin}, 0)), (err, sym.Agg(d, "Err", {"0": sym.Opaque("CallError", "call-error", ctx2)}, 1))]
+
+    def m_handle(ex, st, c, a, d):
+        ok, err = st.fork(), st.fork()
+        e = sym.Event("handle_parsed", a, None, len(st.pc))
+        e.rargs = [full(ex, st, x) for x in a]
+        ok.events.append(e)
+        return [(ok, sym.Agg(d, "Ok", {"0": sym.Unit()}, 0)), (err, sym.Agg(d, "Err", {"0": sym.Opaque("Error", "body-error", ctx2)}, 1))]
+
+    def m_unlock2(ex, st, c, a, d):
+        e = sym.Event("unlock", a, None, len(st.pc))
+        e.rargs = [full(ex, st, x) for x in a]
+        st.events.append(e)
+        return sym.Unit()
+
+    models2 = [(r"^variablescope::Scope::get_mixin$", m_get_mixin), (r"^mixin::<impl at .*>::get$|^MixinDecl::get::<", m_get), (r"^handle_parsed::<", m_handle),
+               (r"::unlock_loading$", m_unlock2), (r"^std::result::Result::<.*>::map_err::<", lambda ex, st, c, a, d: a[0] if isinstance(a[0], sym.Agg) else None)] + BASE_MODELS
+    ex2 = sym.Executor(ctx2, models=models2, feasibility=E.feasibility(ctx2), max_paths=6000)
+    p2 = [p for p in ex2.run(g, [sym.Ref("val", item), sym.Opaque("&mut dyn CssDestination", "dest", ctx2), sym.Opaque("ScopeRef", "scope", ctx2),
+                                 sym.Opaque("&mut Context", "fctx", ctx2)]) if p.status == "return"]
+    rec.paths += len(p2)
+    ok2 = [p for p in p2 if isinstance(p.ret, sym.Agg) and p.ret.variant == "Ok" and any(e.callee == "handle_parsed" for e in p.events)]
+    if not ok2:
+        rec.add("@include arm: an Ok path that handles a mixin body exists (shape not recognised)", {"verdict": "inconclusive", "per_solver": {}, "time_s": 0})
+    kinds = set()
+    D = ex2.discriminant(loaded).term
+    for i, p in enumerate(ok2):
+        seq = [e.callee for e in p.events if e.callee in ("handle_parsed", "unlock")]
+        unl = [e for e in p.events if e.callee == "unlock"]
+        has = E.decide(ctx2, p.pc + ["(not (= %s %s))" % (D, bvlit(1, 64))])["verdict"] == "holds"   # loaded is Some on this path
+        hasnot = E.decide(ctx2, p.pc + ["(not (= %s %s))" % (D, bvlit(0, 64))])["verdict"] == "holds"
+        if has:
+            good = seq == ["handle_parsed", "unlock"] and unl[0].rargs[1] is loaded.children.get("Some.0")
+            kinds.add("loaded")
+            rec.add("@include arm path %d: a mixin that carries a locked file has exactly that file unlocked after its body was handled" % i,
+                    {"verdict": "holds" if good else "violated", "per_solver": {"structural": "event order %s" % seq}, "time_s": 0})
+        elif hasnot:
+            kinds.add("plain")
+            rec.add("@include arm path %d: nothing is unlocked for an ordinary mixin" % i,
+                    {"verdict": "holds" if not unl else "violated", "per_solver": {"structural": "event order %s" % seq}, "time_s": 0})
+        else:
+            rec.add("@include arm path %d: the arm distinguishes mixins with and without a locked file (shape not recognised)" % i,
+                    {"verdict": "inconclusive", "per_solver": {}, "time_s": 0})
+    if ok2 and kinds != {"loaded", "plain"}:
+        rec.add("@include arm: both kinds of mixin explored (%s)" % sorted(kinds), {"verdict": "inconclusive", "per_solver": {}, "time_s": 0})
+    return rec
+
+
 def k_value_eq_symmetric(E, tier):
     """C12: css::Value::eq is symmetric as a function of the two values' kinds and of the (symmetric)
     comparisons of their parts: eq(a,b) and eq(b,a) are executed symbolically and must be the same
